@@ -70,6 +70,7 @@ def main(argv=None):
     ap.add_argument("--repo", default=None)
     ap.add_argument("--no-evidence", action="store_true")
     ap.add_argument("--json", action="store_true", help="print machine-readable result (used by the mutant harness)")
+    ap.add_argument("--emit-known", action="store_true", help="developer aid: print unlisted violations as known-findings entries (stdout only)")
     a = ap.parse_args(argv)
     pid = a.pid.upper()
     tier = a.tier if a.tier in ("quick", "thorough") else "quick"
@@ -140,6 +141,8 @@ def main(argv=None):
             print(f"    key: {r['key']}")
             print(f"VIOLATION property={pid} replay={path}")
         rc = 1
+    if a.emit_known:
+        print("EMIT:" + json.dumps([dict(property=pid, rule=r["rule"], construct=r["construct"], key=r["key"], what=r["detail"][:300], finding="") for r in viol], indent=1))
     if a.json:
         print("JSON:" + json.dumps(dict(rc=rc, violations=[dict(rule=r["rule"], construct=r["construct"], key=r["key"]) for r in viol],
                                        known=[dict(rule=r["rule"], construct=r["construct"]) for r, _ in knowns])))
